@@ -316,7 +316,50 @@ func checkGeneratedModes(c *Ctx, r *Report) {
 				fmt.Sprintf("the mode of a member the packager generates itself depends on %v: scripts and control files must carry the mode the format prescribes whatever the configuration says", bad))
 		}
 	}
-	r.Floor("S4-const", n, 5)
+	// entry descriptors a packager makes up itself (ipk's script table): the
+	// mode it writes into them is the format's, not a function of the
+	// configuration
+	m := 0
+	for _, pk := range c.Packagers {
+		if pk.Format == "" {
+			continue
+		}
+		for _, fn := range sortedFuncs(c, c.Reach(pk.Package)) {
+			if c.funcPkgPath(fn) != pk.PkgPath {
+				continue
+			}
+			k := 0
+			forEachInstr(fn, func(in ssa.Instruction) {
+				al, ok := in.(*ssa.Alloc)
+				if !ok || !isNamed(derefType(al.Type()), filesPath, "ContentFileInfo") {
+					return
+				}
+				for _, ref := range *al.Referrers() {
+					fa, ok := ref.(*ssa.FieldAddr)
+					if !ok || fieldName(fa.X.Type(), fa.Field) != "Mode" {
+						continue
+					}
+					for _, r2 := range *fa.Referrers() {
+						st, ok := r2.(*ssa.Store)
+						if !ok || st.Addr != ssa.Value(fa) {
+							continue
+						}
+						m++
+						k++
+						var bad []string
+						for _, a := range pa.Of(st.Val).fields() {
+							if strings.HasPrefix(a, "Info.") || strings.HasPrefix(a, "Content.") || strings.HasPrefix(a, "FileInfo.") {
+								bad = append(bad, a)
+							}
+						}
+						r.Check(len(bad) == 0, "S4-const", fmt.Sprintf("%s: mode of entry descriptor#%d made in %s", pk.Format, k, c.funcKey(fn)), c.instrPos(st),
+							fmt.Sprintf("the mode of a member the packager generates itself depends on %v: scripts and control files must carry the mode the format prescribes whatever the configuration says", uniq(bad)))
+					}
+				}
+			})
+		}
+	}
+	r.Floor("S4-const", n+m, 6)
 }
 
 // checkScriptTableDeletes (S2-delete): once a slot is bound to its script a
@@ -391,9 +434,10 @@ func checkC09(c *Ctx, r *Report) {
 	r.Floor("ref-E5", importRules(c, r, checkC06, "ref-", []string{"E5"}, func(o Obligation) bool {
 		return strings.Contains(o.Construct, "Scripts.")
 	}), 8)
-	r.Rules = []string{"S1 slot<->field table per format equals the statement's", "S2 each slot guarded by non-emptiness of its own field", "S3 bytes flow unmodified from the file read to the slot", "S4 mode constants", "S5 rpmpack scriptlet tags (thorough)", "S6 script buffers are fresh", "S7 a configured script must-reaches its slot", "S4-const modes of generated members depend on no configuration value"}
+	r.Rules = []string{"S1 slot<->field table per format equals the statement's", "S2 each slot guarded by non-emptiness of its own field", "S3 bytes flow unmodified from the file read to the slot", "S4 mode constants", "S5 rpmpack scriptlet tags (thorough)", "S6 script buffers are fresh", "S7 a configured script must-reaches its slot", "S4-const modes of generated members depend on no configuration value", "S4-const also for entry descriptors a packager makes up (ipk script table)"}
 	r.Explanation = "Table extraction and field provenance over go/ssa. For every packager the places where a script-path field of the configuration is bound to a slot name are extracted (constant-keyed map updates, struct-literal rows, rpmpack Add* calls) and the resulting (slot, field) relation is compared with the table transcribed from the statement — equality, so a missing, extra or cross-wired slot is a violation and every one of the 15 script fields is accounted for in exactly the formats that own it. Each consumer (the read of the script file) must be dominated by a non-emptiness test of a value with the same script-field provenance (populated iff configured). The bytes that reach the archive writer or the rpmpack slot derive from the file read through conversions only — any other function on that path is a violation. Lifecycle script modes are the stated constants. All subsets of configured scripts are covered because each slot is decided independently of the others."
 	r.Explanation += " (S6) buffers that receive script bytes are fresh or reset. (S7) with only one script configured its slot binding is must-reached from Package. (S4-const) the mode of every member a packager generates itself has no configuration atom in its provenance."
+	r.Explanation += " S4-const also covers the mode a packager writes into a ContentFileInfo it allocates itself."
 	r.Assumptions = []string{
 		"rpmpack's AddPrein/AddPostin/AddPreun/AddPostun/AddPretrans/AddPosttrans/AddVerifyScript fill the like-named scriptlet tags (thorough tier checks the tag numbers)",
 		"binary safety is argued from the absence of any transformation on the path, not tested on concrete bytes",
